@@ -362,7 +362,13 @@ func (h *handler) handleMessage(ctx context.Context, msg hwebsocket.Msg, respond
 }
 
 func (h *handler) disconnect(err error) {
-	h.disconnectChan <- err
+	select {
+	case h.disconnectChan <- err:
+	default:
+		// Enough disconnection causes are already pending and the first one
+		// ends the connection: never block the caller, which may be the main
+		// loop itself, the only consumer of the channel.
+	}
 }
 
 func (h *handler) handleDisconnect(err error) {
